@@ -42,6 +42,14 @@ class P:
                 for reg, use in [("REGF:%s:61" % hx("newfn"), "EXEC:1:" + hx("newfn(1)")), ("REGP:%s:61" % hx("neg"), "EXEC:1:" + hx("min(1, 2)")),
                                  ("REGI:%s:%x:0:0:61" % (hx("hi"), 111), "EXEC:2:" + hx("1 + 2")), ("REGS:%s:61" % hx("bang"), "PARSE:" + hx("1 ++"))]:
                     items.append(("H:61:rs(%s) PROBE:%d:150 || %s %s %s" % (hx("h61"), stage, reg, use, rng.choice(PROBES)), ("probe-reg", stage, 1)))
+        # ... a registration that OVERRIDES a built-in name as one of the racing first calls, the initialising thread parked at
+        # every stage: once the round is over the override is in force (whoever initialises must not install the built-in over it)
+        for _ in range(reps):
+            for stage in range(5):
+                for reg, use, want in (("REGF:%s:61" % hx("sum"), "sum(1, 2)", "s(%s)" % hx("h61")), ("REGP:%s:61" % hx("-"), "- 5", "s(%s)" % hx("h61")),
+                                       ("REGI:%s:78:0:0:61" % hx("%"), "7 % 2", "s(%s)" % hx("h61")), ("REGS:%s:61" % hx("++"), "5 ++", "s(%s)" % hx("h61"))):
+                    line = "H:61:rs(%s) PROBE:%d:150 || %s %s %s %s ;; EXEC:1:%s EXEC:2:%s" % (hx("h61"), stage, reg, rng.choice(PROBES), rng.choice(PROBES), "PARSE:" + hx("1"), hx(use), hx(use))
+                    items.append((line, ("probe-override", want, 1)))
         nrace = 60 if tier == "quick" else 5000
         for _ in range(nrace):
             k = rng.randint(2, 8)
@@ -266,6 +274,11 @@ class P:
 
     def oracle(self, case, impl):
         outs = impl.split(" ")
+        if case.meta[0] == "probe-override" and len(outs) >= 2:
+            for o in outs[-2:]:
+                d = values.split_exec(o)
+                if d["cls"] != "OK" or d["value"] != case.meta[1]:
+                    return "violates", "the override of a built-in name registered during first use is not in force once the round is over: " + o[:60]
         if case.meta[0] == "engine-panic":
             if len(outs) != len(case.meta[1]): return "violates", "missing results: " + impl[:80]
             for i, (w, o) in enumerate(zip(case.meta[1], outs)):
